@@ -45,8 +45,8 @@ MIX = {
     "SYMBOL": ["km", "KiB", "zz", "kB"],
     "_MULTIPLY": ["⋅"],
     "_DIVIDE": ["/"],
-    "CARAT_EXPONENT": ["^2", "^" + "9" * 400, "^-" + "9" * 400],
-    "SUPERSCRIPT_EXPONENT": ["²", "⁹" * 400, "⁻" + "⁹" * 400],
+    "CARAT_EXPONENT": ["^2", "^" + "9" * 400, "^-" + "9" * 400, "^2" + "0" * 307, "^-2" + "0" * 307],
+    "SUPERSCRIPT_EXPONENT": ["²", "⁹" * 400, "⁻" + "⁹" * 400, "²" + "⁰" * 307],
 }
 
 
@@ -152,6 +152,25 @@ def attribute(w, m, perr, texts, viols):
     w.restore()
 
 
+class Hist:
+    """Texts parsed so far in a chunk (the parser and its callbacks are long-lived objects, so
+    an outcome may depend on what was parsed before): the first violation of a chunk carries
+    the history, and its replay parses the history first."""
+
+    def __init__(self):
+        self.items = []
+
+    def check(self, m, perr, entry, text, viols):
+        before = len(viols)
+        oc = check_text(m, perr, entry, text, viols)
+        if len(viols) > before and not getattr(self, "given", False):
+            self.given = True
+            k, key, detail, rp = viols[before]
+            viols[before] = (k, key, detail, dict(rp, history=list(self.items)))
+        self.items.append([entry, text])
+        return oc
+
+
 def _string_chunk(args):
     firsts, length = args
     w = get_world()
@@ -163,13 +182,14 @@ def _string_chunk(args):
     n = 0
     for f in firsts:
         w.restore()
+        H = Hist()
         keys0 = reg_keys(m)
         rejected_any = False
         for rest in itertools.product(ALPHABET, repeat=length - 1):
             text = f + "".join(rest)
             for entry in ENTRY:
                 n += 1
-                oc = check_text(m, ParseError, entry, text, viols)
+                oc = H.check(m, ParseError, entry, text, viols)
                 outcomes[oc] = outcomes.get(oc, 0) + 1
         # full comparison per batch: accepted inputs may intern anonymous units, but no
         # parse may ever add or remove a name or a symbol
@@ -199,11 +219,12 @@ def _seq_chunk(args):
     outcomes = {}
     n = 0
     w.restore()
+    H = Hist()
     keys0 = reg_keys(m)
     for seq, status in seqs:
         for text, lex in render_all(seq, styles):
             n += 1
-            oc = check_text(m, ParseError, entry, text, viols)
+            oc = H.check(m, ParseError, entry, text, viols)
             outcomes[oc] = outcomes.get(oc, 0) + 1
             if oc == "value" and len(lex) <= 5:
                 # single-token mutations of an accepted sequence
@@ -215,7 +236,7 @@ def _seq_chunk(args):
                         muts.append(lex[:i] + [lex[i + 1], lex[i]] + lex[i + 2:])
                 for mu in muts:
                     n += 1
-                    oc2 = check_text(m, ParseError, entry, " ".join(mu), viols)
+                    oc2 = H.check(m, ParseError, entry, " ".join(mu), viols)
                     outcomes["mut:" + oc2] = outcomes.get("mut:" + oc2, 0) + 1
     if reg_keys(m) != keys0:
         attribute(w, m, ParseError, [(entry, text) for seq, status in seqs for text, lex in render_all(seq, styles)], viols)
@@ -233,9 +254,10 @@ def _mix_chunk(args):
     w.restore()
     keys0 = reg_keys(m)
     for seq, status in seqs:
+        H = Hist()
         for lex in itertools.product(*[MIX[t] for t in seq]):
             n += 1
-            oc = check_text(m, ParseError, entry, " ".join(lex), viols)
+            oc = H.check(m, ParseError, entry, " ".join(lex), viols)
             outcomes["mix:" + oc] = outcomes.get("mix:" + oc, 0) + 1
         if reg_keys(m) != keys0:
             attribute(w, m, ParseError, [(entry, " ".join(lex)) for lex in itertools.product(*[MIX[t] for t in seq])], viols)
@@ -322,5 +344,7 @@ def replay(obj, kind=None):
     from measured.parsing import ParseError
 
     viols = []
+    for entry, text in obj.get("history") or []:
+        parse_once(w.m, ParseError, entry, text)
     oc = check_text(w.m, ParseError, obj["entry"], obj["text"], viols)
     return bool(viols), f"{obj['entry']}.parse({short(obj['text'])!r}) -> {oc}; {[v[0] for v in viols]}"
